@@ -57,6 +57,11 @@ impl Pages {
         Ok(())
     }
 
+    /// True if the in-memory index differs from what `flush()` last wrote.
+    pub fn has_changes(&self) -> bool {
+        self.change_at.is_some()
+    }
+
     pub fn len(&self) -> usize {
         self.vec.len()
     }
